@@ -5,9 +5,11 @@ verdict operators over the whole reachable case space and prints every behaviour
 the predicted observations; harness/cmd/vh-sig replays them on the real packages.
 C09 additionally records random mask call sequences from the real bdn/cosi masks and
 has TLC validate them against MaskTrace.tla (code -> spec)."""
+import glob
 import json
 import os
 import random
+import re
 import threading
 
 from vlib import Broken, cfg, log
@@ -60,6 +62,7 @@ def c08(ctx):
     res = ctx.run_vh("c08", ["-in", bh, "-max", 0 if q else 60000, "-maxslow", 80 if q else 1500, "-bindings", 6 if q else 2], binary=ctx.build(pkg=PKG))
     oc = (res.get("extra") or {}).get("outcomes", {})
     _need(oc, ["verdict:accept:accept", "verdict:reject:reject", "verdict:free:", "link:equal", "link:different", "reuse:accept:accept", "reuse:reject:reject", "reuse:audit", "conc:all-accept"], "C08")
+    _conc_race(ctx, bh)
     if not q:
         # larger abstract space without generation: three manipulations / deviating arguments per behaviour
         big = dict(consts, MaxDist=3, MlAllUpTo=0, LinkRing=0, MaxRing=5, ReuseLen=0, Conc=False)
@@ -75,6 +78,39 @@ def c08(ctx):
             "a non-canonical encoding of a point of large order cannot be constructed together with a satisfied group equation (needs a discrete log); non-canonical R / key cases are therefore small-order points in their alternative encodings",
         ],
         exhaustive=False)
+
+
+def _conc_race(ctx, bh):
+    """the concurrent-verification behaviours once more under the race detector: whether two goroutines collide
+    inside a verifier is a matter of timing, the happens-before analysis of the executed accesses is not"""
+    conc = os.path.join(ctx.tmp, "C08_conc.ndjson")
+    n = 0
+    with open(conc, "w") as f:
+        for line in open(bh):
+            if line.startswith('[{"') and '"act":"CSign"' in line.split("},", 1)[0]:
+                f.write(line)
+                n += 1
+    if n == 0:
+        raise Broken("no concurrent-verification behaviours were generated")
+    rb = ctx.build(race=True, pkg=PKG)
+    logp = os.path.join(ctx.tmp, "c08race")
+    ctx.run_vh("c08", ["-in", conc, "-bindings", 1, "-concrounds", 2], binary=rb,
+               env={"GORACE": "halt_on_error=0 exitcode=0 log_path=" + logp})
+    seen = {}
+    for fn in glob.glob(logp + ".*"):
+        txt = open(fn, errors="replace").read()
+        for block in txt.split("WARNING: DATA RACE")[1:]:
+            block = block.split("==================")[0]
+            m = re.search(r"go\.dedis\.ch/kyber/v4/([A-Za-z0-9_/]+)\.", block)
+            pkg = m.group(1) if m else "unknown"
+            seen.setdefault(pkg, block[:3000])
+    for pkg, block in sorted(seen.items()):
+        ctx.violations.append({
+            "key": "C08/concurrent-verify/data-race/%s" % pkg,
+            "what": "data race in package %s while several goroutines verify honest signatures against one shared public-key object" % pkg,
+            "detail": {"race_report": block, "behaviours": conc},
+            "driver": "c08", "args": ["-concrounds", "2"]})
+    ctx.cov["extra"].setdefault("conc_race", []).append({"behaviours": n, "race_reports_by_package": sorted(seen)})
 
 
 # --------------------------------------------------------------------------- C09
